@@ -155,37 +155,84 @@ class Model:
 
     # --------------------------------------------------------------- inlining
     def _inline_recording_helpers(self, mi):
-        """Recorder methods of the tracer classes may delegate the recording to a private straight-line helper of the
-        same class (`return self._binary_op(operator.add, rhs)`).  The rules on recorders read one method at a time,
-        so such calls are expanded in place (parameters substituted, clashing locals renamed); the helper is marked
-        `recording_helper` and is not a recorder site of its own."""
+        """Methods of the tracer classes may delegate part of their work to a private helper of the same class
+        (`return self._binary_op(operator.add, rhs)`, `return self._jacobian_utpm(x)`, `self._seed_and_sweep(w)`).
+        The rules on recorders and drivers read one method at a time, so such calls are expanded in place (parameters
+        substituted, clashing locals renamed):
+          * a helper with a straight-line body, wherever its call is a whole statement (`return h()`, `v = h()`, `h()`);
+          * any helper in tail position (`return self._h(...)`) - its own returns then return from the caller.
+        A helper that records is marked `recording_helper` and is not a recorder site of its own."""
         for ci in mi.classes.values():
             helpers = {}
             for name, h in ci.methods.items():
-                if not name.startswith('_') or name.startswith('__') or h.vararg or h.kwarg:
+                if not name.startswith('_') or name.startswith('__') or h.vararg or h.kwarg or h.kind == 'property':
                     continue
                 body = list(h.node.body)
                 if body and isinstance(body[0], ast.Expr) and isinstance(body[0].value, ast.Constant) and isinstance(body[0].value.value, str):
                     body = body[1:]
-                if not body or not isinstance(body[-1], ast.Return) or body[-1].value is None:
+                if not body:
                     continue
-                if not all(isinstance(b, (ast.Assign, ast.AugAssign, ast.Expr)) for b in body[:-1]):
+                if any(isinstance(n, (ast.Yield, ast.YieldFrom, ast.FunctionDef, ast.Lambda, ast.Global, ast.Nonlocal)) for b in body for n in ast.walk(b)):
                     continue
-                if not any(isinstance(c, ast.Call) and isinstance(c.func, ast.Attribute) and c.func.attr == 'pushforward' for b in body for c in ast.walk(b)):
+                # no (mutual) recursion
+                if any(isinstance(c, ast.Call) and isinstance(c.func, ast.Attribute) and c.func.attr == name for b in body for c in ast.walk(b)):
                     continue
-                helpers[name] = (h, body)
+                head = body[:-1] if isinstance(body[-1], ast.Return) else body
+                straight = all(isinstance(b, (ast.Assign, ast.AugAssign, ast.Expr)) for b in head)
+                records = any(isinstance(c, ast.Call) and isinstance(c.func, ast.Attribute) and c.func.attr == 'pushforward' for b in body for c in ast.walk(b))
+                helpers[name] = (h, body, straight, records)
             if not helpers:
                 continue
             used = set()
-            for fi in ci.all_defs:
-                if fi.name in helpers:
-                    continue
-                new = _inline_calls(fi, ci.name, helpers, used)
-                if new is not None:
-                    fi.node = new
+            for _ in range(3):          # helpers calling helpers
+                changed = False
+                for fi in ci.all_defs:
+                    new = _inline_calls(fi, ci.name, helpers, used)
+                    if new is not None:
+                        fi.node = new
+                        changed = True
+                        if fi.name in helpers:
+                            h, _, straight, records = helpers[fi.name]
+                            body = list(fi.node.body)
+                            if body and isinstance(body[0], ast.Expr) and isinstance(body[0].value, ast.Constant) and isinstance(body[0].value.value, str):
+                                body = body[1:]
+                            helpers[fi.name] = (h, body, straight, records)
+                if not changed:
+                    break
             for name in used:
-                helpers[name][0].recording_helper = True
+                if helpers[name][3]:
+                    helpers[name][0].recording_helper = True
                 self.inlined.append(name)
+
+    def _inline_module_helpers(self, mi):
+        """the same expansion for the dispatcher modules: a public dispatcher that hands its work to a private
+        module-level helper (`return _dispatch('erf', x, (x,), scipy.special)`) is read with the helper expanded"""
+        helpers = {}
+        for name, h in mi.functions.items():
+            if not name.startswith('_') or name.startswith('__') or h.vararg or h.kwarg or h.generated:
+                continue
+            body = list(h.node.body)
+            if body and isinstance(body[0], ast.Expr) and isinstance(body[0].value, ast.Constant) and isinstance(body[0].value.value, str):
+                body = body[1:]
+            if not body:
+                continue
+            if any(isinstance(n, (ast.Yield, ast.YieldFrom, ast.FunctionDef, ast.Lambda, ast.Global, ast.Nonlocal)) for b in body for n in ast.walk(b)):
+                continue
+            if any(isinstance(c, ast.Call) and isinstance(c.func, ast.Name) and c.func.id == name for b in body for c in ast.walk(b)):
+                continue
+            head = body[:-1] if isinstance(body[-1], ast.Return) else body
+            straight = all(isinstance(b, (ast.Assign, ast.AugAssign, ast.Expr)) for b in head)
+            helpers[name] = (h, body, straight, False)
+        if not helpers:
+            return
+        used = set()
+        for fi in list(mi.functions.values()):
+            if fi.name in helpers or fi.generated:
+                continue
+            new = _inline_calls(fi, None, helpers, used)
+            if new is not None:
+                fi.node = new
+        self.inlined.extend(sorted(used))
 
     # ------------------------------------------------------------------ load
     def _load(self):
@@ -212,6 +259,9 @@ class Model:
         self.inlined = []       # (caller FuncInfo, helper FuncInfo) pairs, see _inline_recording_helpers
         if 'algopy.tracer.tracer' in self.modules:
             self._inline_recording_helpers(self.modules['algopy.tracer.tracer'])
+        for mn in ('algopy.special.special', 'algopy.globalfuncs', 'algopy.linalg.linalg'):
+            if mn in self.modules:
+                self._inline_module_helpers(self.modules[mn])
 
     def _resolve_relative(self, mi, level, module):
         if level == 0:
@@ -580,7 +630,7 @@ def seq_iteration(for_stmt):
     `f = S[i]` in the body) or the text 'S[i]';  None when the loop is not one of these forms."""
     it, tgt = for_stmt.iter, for_stmt.target
     enum = False
-    if _call_of(it, 'enumerate', 1):
+    if _call_of(it, 'enumerate', 1) or _call_of(it, 'enumerate', 2):
         enum, it = True, it.args[0]
     direction = 'fwd'
     while True:
@@ -644,19 +694,31 @@ class _Subst(ast.NodeTransformer):
 
 
 def _inline_calls(fi, clsname, helpers, used):
-    """-> new FunctionDef with helper calls expanded, or None if fi calls no helper"""
+    """-> new FunctionDef with helper calls expanded, or None if fi calls no (expandable) helper"""
     node = copy.deepcopy(fi.node)
     caller_names = set(fi.params) | set(fi.kwonly) | {n.id for n in ast.walk(node) if isinstance(n, ast.Name) and isinstance(n.ctx, ast.Store)}
     changed = [False]
 
     def expand(st):
         val = st.value if isinstance(st, (ast.Return, ast.Assign, ast.Expr)) else None
-        if not (isinstance(val, ast.Call) and isinstance(val.func, ast.Attribute) and isinstance(val.func.value, ast.Name)
-                and val.func.value.id in ('self', 'cls', clsname) and val.func.attr in helpers):
+        if not isinstance(val, ast.Call):
             return None
+        if clsname is None:
+            # module-level helper called by name
+            if not (isinstance(val.func, ast.Name) and val.func.id in helpers and val.func.id != fi.name):
+                return None
+            hname, recv_expr = val.func.id, None
+        else:
+            if not (isinstance(val.func, ast.Attribute) and isinstance(val.func.value, ast.Name)
+                    and val.func.value.id in ('self', 'cls', clsname) and val.func.attr in helpers and val.func.attr != fi.name):
+                return None
+            hname, recv_expr = val.func.attr, val.func.value.id
         if isinstance(st, ast.Assign) and not (len(st.targets) == 1 and isinstance(st.targets[0], ast.Name)):
             return None
-        h, body = helpers[val.func.attr]
+        h, body, straight, _ = helpers[hname]
+        tail = isinstance(st, ast.Return)
+        if not straight and not tail:
+            return None
         params = list(h.params)
         recv = None
         if h.kind in ('method', 'classmethod') and params:
@@ -665,6 +727,8 @@ def _inline_calls(fi, clsname, helpers, used):
             return None
         bound = dict(zip(params, val.args))
         for k in val.keywords:
+            if k.arg not in params:
+                return None
             bound[k.arg] = k.value
         for p_ in params:
             if p_ not in bound:
@@ -673,46 +737,49 @@ def _inline_calls(fi, clsname, helpers, used):
                 bound[p_] = h.defaults[p_]
         assigned = {n.id for b in body for n in ast.walk(b) if isinstance(n, ast.Name) and isinstance(n.ctx, ast.Store)}
         mapping, pre = {}, []
-        if recv is not None:
-            mapping[recv] = ast.Name(id=val.func.value.id, ctx=ast.Load())
+        if recv is not None and recv_expr is not None:
+            mapping[recv] = ast.Name(id=recv_expr, ctx=ast.Load())
+        suffix = '__' + h.name.strip('_')
         for p_, e in bound.items():
             if isinstance(e, ast.Name) and e.id == p_:
                 continue
             simple = isinstance(e, ast.Constant) or dotted_name(e) is not None
-            if simple and p_ not in assigned:
+            # a substituted argument must not be re-evaluated after something it mentions was reassigned in the helper
+            if simple and p_ not in assigned and not ({n.id for n in ast.walk(e) if isinstance(n, ast.Name)} & assigned):
                 mapping[p_] = e
             else:
-                tgt = p_ if p_ not in caller_names else '%s__%s' % (p_, h.name.strip('_'))
+                tgt = p_ if p_ not in caller_names else p_ + suffix
                 if tgt != p_:
                     mapping[p_] = tgt
-                pre.append(ast.copy_location(ast.Assign(targets=[ast.Name(id=tgt, ctx=ast.Store())], value=copy.deepcopy(e), lineno=st.lineno), st))
+                pre.append(ast.Assign(targets=[ast.Name(id=tgt, ctx=ast.Store())], value=copy.deepcopy(e)))
         for loc in assigned - set(bound):
             if loc in caller_names:
-                mapping[loc] = '%s__%s' % (loc, h.name.strip('_'))
+                mapping[loc] = loc + suffix
         sub = _Subst(mapping)
         out = list(pre)
-        for b in body[:-1]:
-            nb = sub.visit(copy.deepcopy(b))
-            out.append(nb)
-        ret = sub.visit(copy.deepcopy(body[-1].value))
-        if isinstance(st, ast.Return):
-            last = ast.Return(value=ret)
-        elif isinstance(st, ast.Assign):
-            last = ast.Assign(targets=st.targets, value=ret)
+        if straight:
+            has_ret = isinstance(body[-1], ast.Return)
+            for b in (body[:-1] if has_ret else body):
+                out.append(sub.visit(copy.deepcopy(b)))
+            ret = sub.visit(copy.deepcopy(body[-1].value)) if has_ret and body[-1].value is not None else ast.Constant(value=None)
+            if isinstance(st, ast.Return):
+                out.append(ast.Return(value=ret))
+            elif isinstance(st, ast.Assign):
+                out.append(ast.Assign(targets=st.targets, value=ret))
+            elif has_ret and body[-1].value is not None:
+                out.append(ast.Expr(value=ret))
         else:
-            last = ast.Expr(value=ret)
-        out.append(last)
+            for b in body:
+                out.append(sub.visit(copy.deepcopy(b)))
+            if not isinstance(body[-1], (ast.Return, ast.Raise)):
+                out.append(ast.Return(value=ast.Constant(value=None)))
         for o in out:
             for n in ast.walk(o):
-                if not hasattr(n, 'lineno'):
-                    n.lineno = st.lineno
+                n.lineno = st.lineno
+                n.end_lineno = getattr(st, 'end_lineno', st.lineno)
+                if not hasattr(n, 'col_offset'):
                     n.col_offset = st.col_offset
-                    n.end_lineno = getattr(st, 'end_lineno', st.lineno)
                     n.end_col_offset = getattr(st, 'end_col_offset', st.col_offset)
-                else:
-                    # lines of the helper body would point into another function: report the call site
-                    n.lineno = st.lineno
-                    n.end_lineno = getattr(st, 'end_lineno', st.lineno)
         used.add(h.name)
         changed[0] = True
         return out
